@@ -405,6 +405,15 @@ MUTATIONS = [
      'edits': [('gnpy/core/elements.py', """        if hasattr(self, "actual_raman_gain"):
             text += """, """        if True:
             text += """)]},
+    {'id': 'c18-revert-namespace-removed-first', 'props': ['C18'], 'tests': 'tests/test_legacy_yang.py',
+     'desc': 'revert of the fix (namespaced topology branch): the module name of identity values is removed after the per-degree conversion',
+     'edits': [('gnpy/tools/convert_legacy_yang.py', """    elif TOPO_NMSP in json_data:
+        json_data = remove_namespace_context(json_data[TOPO_NMSP], "gnpy-network-topology:")
+        json_data = convert_back_degree(json_data)
+""", """    elif TOPO_NMSP in json_data:
+        json_data = convert_back_degree(json_data[TOPO_NMSP])
+        json_data = remove_namespace_context(json_data, "gnpy-network-topology:")
+""")]},
     {'id': 'c11-revert-explicit-ispart', 'props': ['C11'], 'tests': 'tests/test_path_computation_functions.py tests/test_disjunction.py',
      'desc': 'revert of fix e50d35fe: explicit route returned without checking the listed nodes are crossed in order',
      'edits': [('gnpy/topology/request.py', "    if total_path is not None and ispart(nodes_list, total_path):",
